@@ -633,6 +633,15 @@ def c10(ctx):
         r = vlib.tlc_mc(ctx.workdir, "MC_History", history_cfg(hcap, law=True, maxsubs=ms), workers=8, want_T=False)
         r["constants"] = {"HCap": hcap, "MaxSubs": ms, "law": True}
         ctx.add_mc(r)
+    if ctx.tier == "thorough":
+        # unbounded buffer size: the retention invariant is inductive (Apalache, symbolic)
+        mod = os.path.join(vlib.SPECS, "apalache", "HistoryInd.tla")
+        base = vlib.apalache_check(ctx.workdir, mod, ["--cinit=ConstInit", "--init=Init", "--inv=IndInv", "--length=0"])
+        step = vlib.apalache_check(ctx.workdir, mod, ["--cinit=ConstInit", "--init=IndInit", "--inv=IndInv", "--length=1"])
+        ctx.extra["apalache_inductive_invariant"] = {"module": "apalache/HistoryInd.tla", "base": base, "step": step,
+                                                     "meaning": "sum of entry costs <= HCap is inductive for arbitrary HCap (histories of <= 6 entries)"}
+        if not (base and step):
+            raise vlib.ToolError("Apalache: the retention invariant of the specification is not inductive (specification problem)")
     reqs = history_requests(ctx, hcaps)
     ctx.sample({"tlc_path": reqs[len(reqs) // 2]})
     reqs += random_history_reqs(rng, 300 if ctx.tier == "quick" else 8000, [0, 1, 2, 3, 4, 5, 7, 8, 11, 16, 33, 64])
